@@ -26,7 +26,7 @@ Example C18_example :
   let toks := [97; 98; 99]%N in
   (* state observed after backtracking out of a two-token alternative *)
   let g := Or (Then (Just [97; 98]%N) (Just [120%N])) (MapWith MWState (Just [97%N])) in
-  fst (go no_quirks KRich toks (fun a b => (a, b)) 12 Emit g VUnit init_st)
+  fst (go no_quirks KRich toks (fun a b => (a, b)) 12 Emit g env0 init_st)
     = Ok (Some (VPair (VList [VTok 97%N]) (VNum (ust_at toks 1)))).
 Proof. vm_compute. reflexivity. Qed.
 
